@@ -75,7 +75,9 @@ def positive_witness(chk, unit_names):
                 raise AnalysisBroken("archetype driver %s: error outside the repository: %s:%d %s" % (n, f, l, msg))
             chk.bad("R-ARCH.pos", "%s:%d" % (C.rel(f), l), "(template instantiated with vt::Arch)",
                     "compile-error:" + re.sub(r"\s+", " ", msg)[:80],
-                    "library code asks the scalar type for an operation outside the documented list: " + msg,
+                    ("library code asks an iterator for more than an input iterator offers (vt::InIt, drivers/arch.h): "
+                     if "vt::InIt" in msg else
+                     "library code asks the scalar type for an operation outside the documented list: ") + msg,
                     witness=dict(unit=n, instantiation_stack=stack[:8], diagnostic=msg))
         else:
             good[n] = r
